@@ -898,4 +898,19 @@ Section Correct.
     exists z. repeat split; try assumption.
     intros pos nxt a b inp Hc Hp Hn. exact (L mr pos nxt a b inp K_mr Hc Hp Hn).
   Qed.
+
+  (* a simple operand into breg (the right operand of an operator whose left operand is computed first) *)
+  Corollary expr_runs_b : forall e n off code n', cg venv pool size nslots aenv e RB n off = Some (code, n') -> off0 <= off ->
+    forall f st v s, eval f ge e st = Ret v s -> vars_ok st -> arrays_ok st ->
+    same_store st s /\
+    exists z, v = Vint z /\ in_int z = true /\
+      forall pos nxt a b inp, code_at C lab pos code nxt -> 0 <= pos -> nxt < W ->
+      taus inp (mk pos a b 0 mr) (mk nxt a (z mod W) 0 mr).
+  Proof.
+    intros e n off code n' Hcg Hoff f st v s He Hv Ha.
+    split; [exact (eval_pure e (cg_pure _ _ _ _ _ Hcg) _ _ _ _ He)|].
+    destruct (cg_correct e RB n off code n' Hcg Hoff f st v s He Hv Ha) as (z & Hz & Hr & L).
+    exists z. repeat split; try assumption.
+    intros pos nxt a b inp Hc Hp Hn. exact (L mr pos nxt a b inp K_mr Hc Hp Hn).
+  Qed.
 End Correct.
